@@ -63,7 +63,7 @@ def analyse_ctor(syn, efile, res, rule):
     nm = Names()
     for (p, impl, fn) in syn.all_fns(path=efile):
         for s_ in nodes(fn["body"], "Struct"):
-            if len(s_["fields"]) >= 8 and all(f["shorthand"] for f in s_["fields"]):
+            if len(s_["fields"]) >= 8 and all(f["shorthand"] or ident_of(f["expr"]) is not None for f in s_["fields"]):
                 nm.ctor_fn = fn
                 lets = {}
                 for st in fn["body"]["stmts"]:
@@ -72,7 +72,7 @@ def analyse_ctor(syn, efile, res, rule):
                         lets[pn] = st["init"]
                 for f in s_["fields"]:
                     name = f["member"]
-                    init = lets.get(name)
+                    init = lets.get(name if f["shorthand"] else ident_of(f["expr"]))  # `field: local` like `field`
                     if init is None:
                         # a parameter passed through
                         nm.fields[name] = ("param", name)
